@@ -5,7 +5,9 @@ import (
 	"errors"
 	"io"
 	"math/rand"
+	"net"
 	"runtime"
+	"time"
 )
 
 // Content is the position-coded stream content: byte i of every stream.
@@ -58,6 +60,9 @@ type Source struct {
 	ZeroMax  int  // max consecutive (0,nil) reads injected (progress-guaranteeing), 0 = none
 	ZeroRun  int  // when > 0: exactly this many (0,nil) reads follow every data chunk
 	Endless0 bool // return (0,nil) forever once position reaches ErrAt (no-progress scenario)
+	// AfterErr, when non-nil, is what every Read returns AFTER Err has been delivered once (a connection that
+	// reports a reset with its last chunk and plain EOF afterwards): the first error is the source's error
+	AfterErr error
 	Yield    bool
 	// Churn, when set, is called inside every Read before data is delivered: a hostile reader that
 	// itself uses the shared buffer pool (takes, scribbles and returns buffers).
@@ -106,6 +111,9 @@ func (s *Source) Read(p []byte) (int, error) {
 		if s.Endless0 {
 			s.ZeroReads++
 			return 0, nil
+		}
+		if s.ErrDelivered && s.AfterErr != nil {
+			return 0, s.AfterErr
 		}
 		s.ErrDelivered = true
 		if s.Trace != nil {
@@ -316,3 +324,30 @@ func (d *DirectWriter) Splice(linear []byte, used int) ([]byte, bool) {
 	out = append(out, linear[start:used]...)
 	return out, true
 }
+
+// LenReader wraps a reader and adds a Len method that does NOT mean "bytes that will ever arrive" (here: the
+// bytes staged so far, a small number). Len is not part of io.Reader; nothing may be concluded from it.
+type LenReader struct {
+	io.Reader
+	Staged int
+}
+
+func (l *LenReader) Len() int { return l.Staged }
+
+// ConnSink gives a Sink the method set of a net.Conn (and of io.ReaderFrom / io.StringWriter): a writer that
+// looks at what ELSE its io.Writer can do must still deliver the same bytes through it.
+type ConnSink struct{ *Sink }
+
+func (c ConnSink) Read(p []byte) (int, error)         { return 0, io.EOF }
+func (c ConnSink) Close() error                       { return nil }
+func (c ConnSink) LocalAddr() net.Addr                { return connAddr{} }
+func (c ConnSink) RemoteAddr() net.Addr               { return connAddr{} }
+func (c ConnSink) SetDeadline(t time.Time) error      { return nil }
+func (c ConnSink) SetReadDeadline(t time.Time) error  { return nil }
+func (c ConnSink) SetWriteDeadline(t time.Time) error { return nil }
+func (c ConnSink) WriteString(s string) (int, error)  { return c.Sink.Write([]byte(s)) }
+
+type connAddr struct{}
+
+func (connAddr) Network() string { return "sink" }
+func (connAddr) String() string  { return "sink" }
